@@ -51,13 +51,16 @@ def zero_push_adjust(block, push0):
     return -sum(1 for n, v in block if n == "PUSH" and int(v, 16) == 0)
 
 
-def static_gas(block, push0):
+def static_gas(block, push0, flat_exp=False):
     """static estimate used only when no sampled state is informative (every state halts out of gas):
-    base cost per item, cold prices for state accesses, no dynamic parts"""
+    base cost per item, cold prices for state accesses, no dynamic parts (flat_exp: EXP priced with one
+    exponent byte, as the tool does, instead of none)"""
     g = 0
     for n, v in block:
         if n in evm.GAS_BASE:
             g += evm.GAS_BASE[n]
+            if flat_exp and n == "EXP":
+                g += 50
         elif n == "PUSH":
             g += 2 if (push0 and int(v, 16) == 0) else 3
         elif n.startswith(("PUSH", "DUP", "SWAP")):
